@@ -191,7 +191,7 @@ func main() {
 				ast.Inspect(fd.Body, func(n ast.Node) bool {
 					switch x := n.(type) {
 					case *ast.CallExpr:
-						if orderCalls[calleeName(x)] {
+						if orderCalls[calleeName(x)] || strings.HasPrefix(calleeName(x), "IsProposal") {
 							items = append(items, item{x.Pos(), calleeName(x)})
 						}
 					case *ast.ReturnStmt:
